@@ -188,7 +188,10 @@ type ChanV struct {
 }
 
 // model objects standing in for standard-library types
-type BigObj struct{ v *Term } // math/big.Int as mathematical Int
+type BigObj struct {
+	v   *Term // math/big.Int as mathematical Int
+	dig *StrV // optional: the decimal digits of |v| (with possible leading zeros) when v was parsed from text
+}
 type TimeObj struct {
 	days, nanos *Term // days since 0001-01-01 (Int), nanoseconds in day (Int)
 }
